@@ -122,8 +122,8 @@ func load(pkgDirs []string, withTests bool) (*loaded, error) {
 	// harness-supplied models of repo functions: `// sv:models <full name>` on
 	// a function named svModel_*
 	interp.Models = map[string]*ssa.Function{}
-	for _, p := range spkgs {
-		if p == nil {
+	for _, p := range prog.AllPackages() {
+		if p == nil || p.Pkg == nil || !strings.HasPrefix(p.Pkg.Path(), repoModule) {
 			continue
 		}
 		for name, m := range p.Members {
